@@ -48,12 +48,17 @@ class C03(core.Check):
         n = 500 if self.tier == 'quick' else 12000
         fixed = ['a<b</div>', '<details open>', '<!DOCTYPE html><p>a</p><p>b</p>', '<div style>x</div>', '<div class>x</div>', '', ' ', '<', '&',
                  '<a><b></a></b>', '</div>', '<br><br>', 'text only', '<p>unclosed', '<!-- unterminated', '<div a=">', "<div a='>", '<?pi',
-                 '&amp', '<div/><div/>', '<!DOCTYPE', '<script>x</div>', '<style>', '\x00<p>\x00</p>', '<p>\U0001F600</p>&#x1F600;']
+                 '&amp', '<div/><div/>', '<!DOCTYPE', '<script>x</div>', '<style>', '\x00<p>\x00</p>', '<p>\U0001F600</p>&#x1F600;',
+                 '<!-- c --><!DOCTYPE html><p>a</p>', '<!----><!DOCTYPE html><br/>', '<!-- saved from url -->\n<!DOCTYPE html>\n<html><body>x</body></html>',
+                 '<!-- c -->\n<!DOCTYPE html>', '<?pi?><!DOCTYPE html><p>a</p>', 'x<!DOCTYPE html><p>a</p>', '\n \t<!DOCTYPE html><p>a</p><p>b</p>',
+                 '<!-- a --><!-- b --><p>a</p>', '<p>a</p><!DOCTYPE html><p>b</p>']
         for s in fixed:
             cases.append(dict(cls='plain', html=s, second='<p>next</p>'))
             cases.append(dict(cls='indexed', html=s, second='<p>next</p>', flags=[True, True, True, True]))
         while len(cases) < n:
             s = self._gen_string(rng)
+            if rng.random() < 0.08:
+                s = rng.choice(['<!-- c -->', '<!---->\n', ' ', '\n', '<?x?>', 'x']) + rng.choice(['<!DOCTYPE html>', '<!doctype html>\n', '<!DOCTYPE html PUBLIC "a">']) + s
             if FORBIDDEN.search(s):
                 continue
             r = rng.random()
